@@ -237,6 +237,17 @@ theorem connClose_sock_none (s : State) (c : Nat) (cn : Conn) (h : (connClose s 
   | none => simp [List.getElem?_modify, hx] at h
   | some x => simp [List.getElem?_modify, hx] at h; rw [← h]
 
+/-- … also after a per-connection flag has been put back (`getresponse` restores
+`_has_connected_to_proxy` after `http.client`'s `close()`) -/
+theorem setConn_connClose_sock_none (s : State) (c : Nat) (b : Bool) (cn : Conn)
+    (h : (setConn (connClose s c) c fun x => { x with proxyConnected := b }).conns[c]? = some cn) :
+    cn.sock = none := by
+  cases hx : (connClose s c).conns[c]? with
+  | none => simp [setConn, List.getElem?_modify, hx] at h
+  | some x =>
+    simp [setConn, List.getElem?_modify, hx] at h
+    rw [← h]; exact connClose_sock_none s c x hx
+
 /-- giving up a lease whose connection is closed, when the pool is closed or full and not blocking -/
 theorem drop_lease {s : State} {L : List Nat} {c : Nat} (h : InvL s (c :: L))
     (hs : ∀ cn, s.conns[c]? = some cn → cn.sock = none)
